@@ -56,6 +56,9 @@ type storeClient struct {
 	// of the chunk is still written (create-then-fill discipline only).
 	partialNum, partialDen int
 	crashed                bool
+	// readOnly: writes succeed but are discarded (the observer handle must not leave derived
+	// files such as journal / commit snapshots behind).
+	readOnly bool
 }
 
 type StoreEngine struct {
@@ -122,6 +125,13 @@ func (e *StoreEngine) Client(id int) storage.Engine {
 	e.mu.Lock()
 	defer e.mu.Unlock()
 	return &storeView{e: e, c: e.client(id)}
+}
+
+// SetReadOnly makes every write of client id a successful no-op.
+func (e *StoreEngine) SetReadOnly(id int, ro bool) {
+	e.mu.Lock()
+	defer e.mu.Unlock()
+	e.client(id).readOnly = ro
 }
 
 // CrashAt arms fail-stop for client id at its k-th operation counted from now.
@@ -426,7 +436,9 @@ func (w *memWriter) Close() error {
 		return ErrStoreCrashed
 	}
 	b := append([]byte(nil), w.buf.Bytes()...)
-	v.e.files[w.rel] = b
+	if !v.c.readOnly {
+		v.e.files[w.rel] = b
+	}
 	v.record("put", w.rel, "ok", b, sched)
 	return nil
 }
@@ -473,7 +485,9 @@ func (v *storeView) PutIfNotExists(ctx context.Context, u *storage.URI, b []byte
 			v.record("putx", rel, "exists", b, sched)
 			return existsErr(rel)
 		}
-		v.e.files[rel] = append([]byte(nil), b...)
+		if !v.c.readOnly {
+			v.e.files[rel] = append([]byte(nil), b...)
+		}
 		v.record("putx", rel, "ok", b, sched)
 		return nil
 	}
@@ -513,7 +527,9 @@ func (v *storeView) Delete(ctx context.Context, u *storage.URI) error {
 		v.record("del", rel, "notfound", nil, sched)
 		return notFound(u)
 	}
-	delete(v.e.files, rel)
+	if !v.c.readOnly {
+		delete(v.e.files, rel)
+	}
 	v.record("del", rel, "ok", nil, sched)
 	return nil
 }
@@ -528,7 +544,7 @@ func (v *storeView) DeleteByPrefix(ctx context.Context, u *storage.URI) error {
 		return ErrStoreCrashed
 	}
 	for k := range v.e.files {
-		if k == rel || strings.HasPrefix(k, rel+"/") {
+		if !v.c.readOnly && (k == rel || strings.HasPrefix(k, rel+"/")) {
 			delete(v.e.files, k)
 		}
 	}
